@@ -107,6 +107,7 @@ type runner struct {
 	scratch string
 	mode    string
 	counts  map[string]int
+	seen    map[string]int
 	seed    int
 }
 
@@ -114,6 +115,17 @@ func (r *runner) count(k string) { r.counts[k]++ }
 
 func (r *runner) mismatch(sig vh.M, detail vh.M) {
 	r.count("mismatch")
+	// the orchestrator reports one violation per distinct signature: repeated
+	// records of one signature carry no detail (they are only counted)
+	k, _ := json.Marshal(sig)
+	if r.seen == nil {
+		r.seen = map[string]int{}
+	}
+	r.seen[string(k)]++
+	if r.seen[string(k)] > 2 {
+		r.out.put(vh.M{"kind": "mismatch", "sig": sig, "detail": vh.M{"elided": true}}, false)
+		return
+	}
 	r.out.put(vh.M{"kind": "mismatch", "sig": sig, "detail": detail}, true)
 }
 
@@ -326,6 +338,8 @@ func main() {
 		child(os.Args[2:])
 	case "record":
 		record(os.Args[2:])
+	case "registry":
+		registry()
 	default:
 		vh.Fatal("unknown sub-command", os.Args[1])
 	}
